@@ -1649,11 +1649,31 @@ def rule_D7b(repo: Repo) -> RuleResult:
     if len(rets) != 1 or not {"SS", "N"} <= set(roles.values()):
         raise AnalysisError(f"D7b: primitives / return of GroupBy.var not identified ({roles})")
     env = {name: ("name", role) for name, role in roles.items()}
+
+    def _strip_conversions(e: ast.AST) -> ast.AST:
+        """X.to_numpy() / X.astype(..) / X.values / np.asarray(X) of a local are the local (container / dtype conversions do not
+        change which primitive the value is; D7c checks the float64 cast separately)"""
+        class R(ast.NodeTransformer):
+            def visit_Call(self, node):
+                self.generic_visit(node)
+                if isinstance(node.func, ast.Attribute) and node.func.attr in ("to_numpy", "astype", "copy") and isinstance(node.func.value, ast.Name):
+                    return node.func.value
+                if norm(node.func) in ("np.asarray", "np.array") and node.args and isinstance(node.args[0], ast.Name):
+                    return node.args[0]
+                return node
+
+            def visit_Attribute(self, node):
+                self.generic_visit(node)
+                if node.attr == "values" and isinstance(node.value, ast.Name):
+                    return node.value
+                return node
+        import copy as _cp
+        return R().visit(_cp.deepcopy(e))
     # forward-substitute the remaining single-definition locals
     for s in walk_no_nested(var.node):
         if isinstance(s, ast.Assign) and len(s.targets) == 1 and isinstance(s.targets[0], ast.Name) and s.targets[0].id not in roles:
-            env[s.targets[0].id] = _canon(_strip_clamp(s.value), env)
-    got = _canon(_strip_clamp(rets[0].value), env)
+            env[s.targets[0].id] = _canon(_strip_clamp(_strip_conversions(s.value)), env)
+    got = _canon(_strip_clamp(_strip_conversions(rets[0].value)), env)
     ddof = ("name", "ddof")
     N, SS = ("name", "N"), ("name", "SS")
     s2_forms = [("name", "S2"), ("Pow", ("name", "S"), ("const", "2")), ("mul", ("name", "S"), ("name", "S"))]
